@@ -268,7 +268,7 @@ def cigar_for(draw, max_ref=30, simple=False):
 @st.composite
 def dataset_spec(draw, max_loci=3, max_snvs=5, max_samples=3, max_reads=25, paired=True, flags=True, multi_rg=True,
                  mapq_values=(0, 19, 20, 21, 60, 255), extra_bases=True, min_loci=1, n_contigs=None, simple_cigar=False,
-                 min_reads=3, locus_len=(12, 30), unique_qnames_across_samples=True):
+                 min_reads=3, locus_len=(12, 30), unique_qnames_across_samples=True, sub_rate=0):
     nc = n_contigs or draw(st.integers(1, 2))
     n_loci = draw(st.integers(min_loci, max_loci))
     contigs = []
@@ -330,7 +330,7 @@ def dataset_spec(draw, max_loci=3, max_snvs=5, max_samples=3, max_reads=25, pair
                     lo = max(0, locus["start"] - span - 2)
                     hi = min(len(cseq[locus["contig"]]) - span - 1, locus["stop"] + 1)
                     pos = draw(st.integers(lo, max(lo, hi)))
-                    read = make_read(draw, cseq[locus["contig"]], ls, hap, pos, cigar, extra_bases)
+                    read = make_read(draw, cseq[locus["contig"]], ls, hap, pos, cigar, extra_bases, sub_rate)
                     read.update({"qname": "q%d" % qn, "rg": rg["id"], "contig": locus["contig"], "mapq": draw(st.sampled_from(mapq_values)), "qual": 30})
                     qn += 1
                     fl = {}
@@ -349,7 +349,7 @@ def dataset_spec(draw, max_loci=3, max_snvs=5, max_samples=3, max_reads=25, pair
                         else:
                             pos2 = draw(st.integers(lo, hi2))
                         hap2 = hap if draw(st.booleans()) else haps[draw(st.integers(0, 1))]
-                        mate = make_read(draw, cseq[locus["contig"]], ls, hap2, pos2, cigar2, extra_bases)
+                        mate = make_read(draw, cseq[locus["contig"]], ls, hap2, pos2, cigar2, extra_bases, sub_rate)
                         mate.update({"qname": read["qname"], "rg": rg["id"], "contig": locus["contig"], "mapq": draw(st.sampled_from(mapq_values)), "qual": 30})
                         read["flag"] = dict(read["flag"], paired=True, read1=True)
                         read["mate_pos"] = pos2
@@ -359,7 +359,7 @@ def dataset_spec(draw, max_loci=3, max_snvs=5, max_samples=3, max_reads=25, pair
     return {"contigs": contigs, "snvs": snvs, "loci": loci, "bams": bams, "samples": samples}
 
 
-def make_read(draw, ref, ls, hap, pos, cigar, extra_bases):
+def make_read(draw, ref, ls, hap, pos, cigar, extra_bases, sub_rate=0):
     """Sequence following the reference with the haplotype's alleles at SNVs; occasional other bases / N."""
     snv_at = {s["pos"]: (s, a) for s, a in zip(ls, hap)}
     seq = []
@@ -378,6 +378,9 @@ def make_read(draw, ref, ls, hap, pos, cigar, extra_bases):
                         elif k == 1:
                             base = draw(st.sampled_from(BASES))
                     seq.append(base)
+                elif sub_rate and draw(st.integers(0, sub_rate - 1)) == 0:
+                    # sequencing difference away from any listed SNV
+                    seq.append(draw(st.sampled_from(BASES)))
                 else:
                     seq.append(ref[p])
             r += n
